@@ -55,11 +55,18 @@ const PATTERNS: &[&str] = &[
     r"(a)\1*?b?",
     r"(?:(?=a)a|b?)+?c",
     r"(?:\b|x)*?y",
+    // a delegated piece that holds a start anchor AND a group: it must see the text in front of
+    // the search position whichever thread runs it
+    r"(?m)^(\d{3})(?=,)",
+    r"(?m)^(\w+)(?=:)",
+    r"\A(a+)\b",
 ];
 
 const TEXTS: &[&str] = &[
     "",
     "nananana1",
+    "a1234,b5678,\n901,a1234,b5678,\n902,",
+    "key:val k2:v2\nk3:v3 aaa:b",
     "aab aaa xxy bac",
     "abc",
     "hello world hello",
@@ -440,9 +447,76 @@ fn main() {
             cold_rounds += 1;
         }
     }
+    // long-search rounds: many threads, each a few searches of about a millisecond on a 5 kB
+    // text through one Regex (then through clones), all released together - every thread must
+    // come back (admission control / pooled state with a lost wake-up shows only here)
+    let mut long_rounds = 0u64;
+    if mode == "native" && !watchdog {
+        let words = ["alpha", "beta", "gamma", "delta", "eps", "zeta", "eta", "theta"];
+        let mut rng = Rng(seed ^ 0x10A6);
+        let mut long_text = String::new();
+        while long_text.len() < 5000 {
+            long_text.push_str(words[rng.below(words.len())]);
+            long_text.push(if rng.below(9) == 0 { '\n' } else { ' ' });
+            if rng.below(40) == 0 {
+                long_text.push_str("dup dup ");
+            }
+        }
+        let long_text: Arc<String> = Arc::new(long_text);
+        for (pi, pat) in [r"\b(\w+)\s+\1\b", r"(?<![a-z])(\w+)(?=\s+\1\b)"].iter().enumerate() {
+            let Ok(re) = Regex::new(pat) else { continue };
+            let re = Arc::new(re);
+            let want = call(&re, &long_text, 1);
+            let n_rounds = (target / 40_000).clamp(6, 40);
+            for round in 0..n_rounds {
+                let n = [16usize, 24, 32, 12][(round % 4) as usize];
+                let barrier = Arc::new(Barrier::new(n));
+                let (tx, rx) = mpsc::channel();
+                for tid in 0..n {
+                    let (re, barrier, tx, text, want) = (re.clone(), barrier.clone(), tx.clone(), long_text.clone(), want.clone());
+                    let use_clone = round % 2 == 1 && tid % 2 == 1;
+                    std::thread::spawn(move || {
+                        let own = if use_clone { Some((*re).clone()) } else { None };
+                        let r: &Regex = own.as_ref().unwrap_or(&re);
+                        barrier.wait();
+                        let mut bad = None;
+                        for _ in 0..3 {
+                            match std::panic::catch_unwind(std::panic::AssertUnwindSafe(|| call(r, &text, 1))) {
+                                Ok(s) if s == want => {}
+                                Ok(_) => bad = Some(format!("LONG SEARCH: pattern {} thread {}: find_iter over the 5 kB text differs from the single-threaded run", pi, tid)),
+                                Err(_) => bad = Some(format!("LONG SEARCH: pattern {} thread {} panicked", pi, tid)),
+                            }
+                        }
+                        let _ = tx.send(bad);
+                    });
+                }
+                drop(tx);
+                for _ in 0..n {
+                    match rx.recv_timeout(Duration::from_secs(60)) {
+                        Ok(Some(m)) => total.mismatches.push(m),
+                        Ok(None) => {}
+                        Err(_) => {
+                            watchdog = true;
+                            eprintln!("c18stress: long-search round {} with {} threads: a thread did not come back within 60 s", round, n);
+                            break;
+                        }
+                    }
+                    total.calls += 3;
+                }
+                long_rounds += 1;
+                if watchdog {
+                    break;
+                }
+            }
+            if watchdog {
+                break;
+            }
+        }
+    }
     total.mismatches.extend(clone_diffs);
     let res = serde_json::json!({
         "clone_programs_compared": clone_programs_compared,
+        "long_search_rounds": long_rounds,
         "mode": mode, "seed": seed, "calls": total.calls, "overlapped_calls": total.overlapped,
         "distinct_triples_compared_under_overlap": total.triples_overlapped.len(),
         "peak_threads_inside_one_regex": peak.load(Ordering::Relaxed),
